@@ -139,6 +139,7 @@ var whitelist2 = []fnSpec{
 	// group Road: tak/game.go hasRoad, bitboard.FloodGroups
 	{dir: "tak", file: "game.go", recv: "Position", name: "hasRoad", lean: "positionHasRoad", group: "Road", views: map[string]string{"p": "analysis.BlackGroups analysis.WhiteGroups cfg.c.B cfg.c.L cfg.c.R cfg.c.T move"}},
 	{dir: "bitboard", file: "bits.go", name: "FloodGroups", lean: "floodGroups", group: "Road", fuel: []string{"66"}},
+	{dir: "tak", file: "game.go", recv: "Position", name: "WinDetails", lean: "positionWinDetails", group: "Road", views: map[string]string{"p": "Black Caps Standing White blackCaps blackStones cfg.BlackWinsTies cfg.c.Mask hasRoad whiteCaps whiteStones"}},
 
 	// group MoveGen: tak/slide.go MkSlides, tak/move.go calculateSlides, Position.AllMoves
 	{dir: "tak", file: "slide.go", name: "MkSlides", lean: "mkSlides", group: "MoveGen"},
